@@ -558,6 +558,11 @@ func (r *RIB) addEntryInternal(ni string, op *spb.AFTOperation, oks, fails *[]*O
 
 	switch {
 	case opErr != nil:
+		// The operation has failed fatally and is reported as such exactly once, if it
+		// was a pending operation ensure that it is not tried (and failed) again - either
+		// further up this stack or by a subsequent call.
+		installStack[op.GetId()] = true
+		r.rmPending(op.GetId())
 		*fails = append(*fails, &OpResult{
 			ID:    op.GetId(),
 			Op:    op,
